@@ -668,6 +668,10 @@ Fixpoint ids_ok (t : st) : Prop :=
   | SLst es => all es
   | SMap kvs => (fix go (l : list (st * st)) : Prop :=
                    match l with [] => True | (k, v) :: l' => ids_ok k /\ ids_ok v /\ go l' end) kvs
+  | SMsg _ names fields =>
+      Forall (fun n => ident_okb n = true) names /\
+      (fix go (l : list (str * st)) : Prop :=
+         match l with [] => True | (n, v) :: l' => ident_okb n = true /\ ids_ok v /\ go l' end) fields
   | SNot _ a | SNeg _ a | SParen a => ids_ok a
   | SMul _ a b | SAdd _ a b | SRel _ a b => ids_ok a /\ ids_ok b
   | SAnd a rs | SOr a rs =>
@@ -748,6 +752,18 @@ Proof.
   - rewrite raw_map. apply simple_cons; [reflexivity|]. apply simple_app; [|now apply simple_one]. apply simple_entries.
     induction H as [|[k v] l [Hk Hv] _ IH]; [constructor|]. destruct W as (Wk & Wv & Wl). destruct I as (Ik & Iv & Il).
     constructor; [split; [now apply Hk|now apply Hv]|now apply IH].
+  - (* message literal *)
+    destruct W as [_ Wf]. destruct I as [In If]. rewrite raw_msg.
+    apply simple_app; [destruct lead; [now apply simple_one|constructor]|].
+    apply simple_app.
+    { clear -In. induction In as [|a names Ha Hn IH]; [constructor|]. destruct names as [|b names'].
+      - now apply simple_one.
+      - change (ids_tk (a :: b :: names')) with (TIdent a :: TDot :: ids_tk (b :: names')).
+        apply simple_cons; [exact Ha|]. apply simple_cons; [reflexivity|exact IH]. }
+    apply simple_cons; [reflexivity|]. apply simple_app; [|now apply simple_one].
+    induction H as [|[n v] l Hv _ IH]; [constructor|]. destruct Wf as [Wv Wl]. destruct If as (In0 & Iv & Il).
+    cbn [fields_tk snd] in *. apply simple_cons; [exact In0|]. apply simple_cons; [reflexivity|].
+    apply simple_app; [now apply Hv|]. destruct l; [constructor|]. apply simple_cons; [reflexivity|now apply IH].
   - cbn [raw]. fold (tk_at 7 t). apply simple_app; [now apply (simple_repeat TBang)|]. apply simple_tk_at. now apply IHt.
   - destruct W as [W _]. cbn [raw]. fold (tk_at 7 t). apply simple_app; [now apply (simple_repeat TMinus)|]. apply simple_tk_at. now apply IHt.
   - destruct W as (Wo & Wa & Wb). destruct I as [Ia Ib]. cbn [raw]. fold (tk_at 5 t1). fold (tk_at 6 t2).
